@@ -1125,9 +1125,46 @@ func (g *growTracker) nextGrowPage() int {
 // buffer.  Afterwards every key is read back, IterateKV is checked and the tree keeps being used.
 // A node slice that is used across such a reallocation without being re-read shows up as lost
 // keys (oracle: reference map) and as a walk that differs from the model.
+// treeResetRegrow: grow an in-memory tree past its initial buffer with keys in random order (leaves
+// and inner nodes filled past their split points), Reset it, grow it past the initial buffer
+// again with other keys, then walk, iterate, DeleteBelow, iterate: after a Reset every page the
+// tree hands out must be empty again, also the pages beyond the initial size.
+func treeResetRegrow(r *Run, id int, ps int) {
+	c := newMemCase(r, id, ps, "reset after growth past the initial buffer, regrow past it, iterate")
+	initial := (1 << 20) / ps
+	c.quiet = true
+	for phase := 0; phase < 2 && !c.dead; phase++ {
+		for n := 0; c.t.Stats().NumPages < initial+48 && n < 400000 && !c.dead; n++ {
+			k := 1 + r.Rng.Uint64()%(1<<36) + uint64(phase)<<40
+			c.set(k, 1+r.Rng.Uint64()%1000)
+		}
+		c.quiet = false
+		c.walk()
+		c.iterate(0, 0)
+		if phase == 0 {
+			c.reset()
+			c.quiet = true
+		}
+	}
+	if c.t.Stats().NumPages >= initial+48 {
+		r.Count("reset_regrow_past_initial_buffer")
+		c.splits, c.recycled = true, true
+	}
+	c.deleteBelow(400)
+	c.walk()
+	c.iterate(0, 0)
+	c.finalGets = 20000
+	c.finish()
+}
+
 func streamTreeGrow(r *Run) {
 	defer z.VerifSetPageSize(os.Getpagesize())
 	debug.SetPanicOnFault(true)
+	treeResetRegrow(r, 1000, 512)
+	if r.Scale >= 2 {
+		treeResetRegrow(r, 1001, 1024)
+		treeResetRegrow(r, 1002, 144)
+	}
 	pageSizes := []int{512}
 	if r.Scale >= 2 {
 		pageSizes = append(pageSizes, 144, 1024)
